@@ -25,9 +25,10 @@ FMT = re.compile(r'^(uintbe|uint|intbe|int|bool|bin|bytes)(?::(\d+))?(?:=(.*))?$
 class Stream(Native):
     """Model of bitstring.BitStream: records what is read / appended / overwritten."""
 
-    def __init__(self, interp):
+    def __init__(self, interp, script=None):
         self.interp = interp
         self.k = 0
+        self.script = list(script or [])     # raw unsigned values of the first reads; further reads are symbolic
 
     def __repr__(self):
         return 'Stream'
@@ -41,6 +42,14 @@ class Stream(Native):
         if name == 'read':
             interp.event('read', args[0] if args else None)
             self.k += 1
+            if self.k <= len(self.script):
+                raw = self.script[self.k - 1]
+                p = parse(args[0]) if args else None
+                if p and p[0] == 'bool':
+                    return bool(raw)
+                if p and p[0] in ('uint', 'uintbe'):
+                    return raw
+                return Top('read')
             return Sym('raw%d' % (self.k - 1))
         interp.event('streamcall', name, list(args))
         return Top('call:' + name)
@@ -73,17 +82,22 @@ class BitInterp(Interp):
         return False
 
 
-def new_obj(interp, cls):
-    return Obj(cls, {'bit_stream': Stream(interp), 'bitstring_Error': Top('bitstring.Error')})
+def new_obj(interp, cls, script=None):
+    return Obj(cls, {'bit_stream': Stream(interp, script), 'bitstring_Error': Top('bitstring.Error')})
 
 
-def call(repo, cls, meth, args):
+def one_bit(p):
+    """A parsed read format that takes exactly one bit."""
+    return bool(p) and ((p[0] == 'bool' and p[1] is None) or (p[0] in ('uint', 'uintbe') and p[1] == 1))
+
+
+def call(repo, cls, meth, args, script=None):
     """Evaluate cls.meth(*args) on a fresh object; returns list of Results."""
     fi = repo.method(cls, meth)
     it = BitInterp(repo, cls)
 
     def mk():
-        loc = {'self': new_obj(it, cls)}
+        loc = {'self': new_obj(it, cls, script)}
         for p, a in zip(fi.params[1:], args):
             loc[p] = a
         if len(args) < len(fi.params) - 1:
@@ -149,17 +163,17 @@ def rule_r1(repo, tier):
                         witness={'nbits': n, 'value': v})
         # sign-magnitude
         if n >= 2:
-            fi, res = call(repo, R, 'read_int', [n])
             outs = {}
-            for r in res:
-                rd = [parse(e[1]) for e in r.events if e[0] == 'read']
-                ok = r.ok and len(rd) == 2 and rd[0] and rd[0][0] == 'bool' and rd[1] and rd[1][1] == n - 1 and uint_kind_ok(rd[1][0], n - 1)
-                if not ok:
-                    rr.fail('%s.read_int:layout' % R, fi.where, 'read_int(%d) reads %s (expected sign bit first, then %d magnitude bits)' % (
-                        n, [e[1] for e in r.events if e[0] == 'read'], n - 1), witness={'nbits': n})
-                    continue
-                sign_set = r.log[0][1] == 0 if r.log else None
-                outs[sign_set] = repr(r.value)
+            for bit in (1, 0):
+                fi, res = call(repo, R, 'read_int', [n], script=[bit])
+                for r in res:
+                    rd = [parse(e[1]) for e in r.events if e[0] == 'read']
+                    ok = r.ok and len(rd) == 2 and one_bit(rd[0]) and rd[1] and rd[1][1] == n - 1 and uint_kind_ok(rd[1][0], n - 1)
+                    if not ok:
+                        rr.fail('%s.read_int:layout' % R, fi.where, 'read_int(%d) reads %s (expected sign bit first, then %d magnitude bits)' % (
+                            n, [e[1] for e in r.events if e[0] == 'read'], n - 1), witness={'nbits': n})
+                        continue
+                    outs[bool(bit)] = repr(r.value)
             if outs and (outs.get(True) not in ('mul(-1,raw1)', 'neg(raw1)', 'mul(raw1,-1)') or outs.get(False) != 'raw1'):
                 rr.fail('%s.read_int:polarity' % R, fi.where, 'read_int(%d): sign bit set -> %s, clear -> %s (expected -magnitude / +magnitude)' % (
                     n, outs.get(True), outs.get(False)), witness={'nbits': n})
@@ -189,12 +203,15 @@ def rule_r1(repo, tier):
             rr.fail('%s.write_bin' % W, fi.where, err or 'write_bin(%r) appends %s' % (s, [e[1] for e in r.events if e[0] == 'write']), witness={'nbits': n})
         rr.instance('width %d: uint, int, bin reader/writer formats' % n)
     # bool
-    fi, res = call(repo, R, 'read_bool', [])
-    r, err = single(res, fi, 'read_bool()')
-    rd = [parse(e[1]) for e in r.events if e[0] == 'read'] if r else []
     rr.instance('bool reader/writer formats')
-    if err or len(rd) != 1 or not rd[0] or rd[0][0] != 'bool' or rd[0][1] is not None:
-        rr.fail('%s.read_bool' % R, fi.where, err or 'read_bool reads %s' % rd)
+    for bit in (0, 1):
+        fi, res = call(repo, R, 'read_bool', [], script=[bit])
+        r, err = single(res, fi, 'read_bool()')
+        rd = [parse(e[1]) for e in r.events if e[0] == 'read'] if r else []
+        if err or len(rd) != 1 or not one_bit(rd[0]):
+            rr.fail('%s.read_bool' % R, fi.where, err or 'read_bool reads %s (expected exactly one bit)' % rd)
+        elif r.value is not bool(bit):
+            rr.fail('%s.read_bool' % R, fi.where, 'read_bool returns %r for a %d bit' % (r.value, bit))
     for v in (True, False):
         fi, res = call(repo, W, 'write_bool', [v])
         r, err = single(res, fi, 'write_bool(%s)' % v)
